@@ -44,7 +44,7 @@ def generate(r, in_fn, allow_exempt=False):
         return "[" + ", ".join(str(x) for x in o.items) + "]"
 
     def new_object():
-        kind = r.choice(["list", "list", "list", "map", "inst", "list"])
+        kind = r.choice(["list", "list", "list", "map", "inst", "list", "tuple", "closure"])
         oid = len(objs)
         if kind == "list":
             o = Obj(oid, "list", [r.randint(0, 9) for _ in range(r.choice([0, 1, 3, 4, 4, 5, 8]))])
@@ -52,6 +52,13 @@ def generate(r, in_fn, allow_exempt=False):
         elif kind == "map":
             o = Obj(oid, "map", {})
             source = "{}"
+        elif kind == "tuple":
+            # immutable, still an object with an identity of its own: two tuples with equal elements are two keys
+            o = Obj(oid, "tuple", [r.randint(0, 3), r.randint(0, 3)])
+            source = "(%d, %d)" % (o.items[0], o.items[1])
+        elif kind == "closure":
+            o = Obj(oid, "closure", [r.randint(0, 3)])
+            source = "mkconst(%d)" % o.items[0]
         else:
             o = Obj(oid, "inst", [r.randint(0, 9)])
             source = "Box(%d)" % o.items[0]
@@ -225,6 +232,9 @@ def generate(r, in_fn, allow_exempt=False):
             elif o.kind == "inst":
                 body.append("print(%s.v);" % a)
                 expect.append(str(o.items[0]))
+            elif o.kind == "closure":
+                body.append("print(%s());" % a)
+                expect.append(str(o.items[0]))
             else:
                 body.append("print(%s.len());" % a)
                 expect.append(str(len(o.items)))
@@ -246,6 +256,7 @@ def generate(r, in_fn, allow_exempt=False):
         "class Box { init(v) { self.v = v; } }",
         "fn mkgetter(x) { || x }",
         "fn grow(l, v) { l.push(v); l }",
+        "fn mkconst(v) { || v }",
         "fn observer(x, ask, answer) { let q = <- ask; while q != nil { if q[0] == 'len' { if x.cls() == Box { answer <- x.v; } else { answer <- x.len(); } } if q[0] == 'same' { answer <- (x == q[1]); } if q[0] == 'push' { x.push(q[1]); answer <- true; } if q[0] == 'set' { x.v = q[1]; answer <- true; } q = <- ask; } }",
     ]
     if in_fn:
